@@ -145,6 +145,16 @@ Proof.
 Qed.
 Print Assumptions C20_rotate_energy_and_L.
 
+(* reb_simulation_irotate rotates every one of the N particles, variational particles included, by the same linear map, so the
+   variational particles of R*sim are R*(variational particles) *)
+Theorem C20_irotate_all_particles : forall (q : quat R) (real var : list (vec3 R * vec3 R)),
+  sim_rotate RNum q (real ++ var)%list = (sim_rotate RNum q real ++ sim_rotate RNum q var)%list /\
+  List.length (sim_rotate RNum q (real ++ var)%list) = (List.length real + List.length var)%nat /\
+  (forall i d, nth i (sim_rotate RNum q (real ++ var)%list) (rotate_pv RNum q d) = rotate_pv RNum q (nth i (real ++ var)%list d)) /\
+  (forall x dx eps, rotate RNum (v_add RNum x (v_mul RNum dx eps)) q = v_add RNum (rotate RNum x q) (v_mul RNum (rotate RNum dx q) eps)).
+Proof. exact irotate_all_particles. Qed.
+Print Assumptions C20_irotate_all_particles.
+
 Theorem C20_angle_axis : forall c s (axis p : vec3 R), c * c + s * s = 1 -> 0 < v_lsq RNum axis ->
   let a := v_normalize RNum axis in let q := angle_axis RNum c s axis in
   q_lsq RNum q = 1 /\ rotate RNum a q = a /\
